@@ -78,6 +78,8 @@ impl Wake for FlushWaker {
 }
 
 struct Shared {
+    /// Some: appends run under this thread-local `metrics` recorder (global-recorder bridge)
+    tl_recorder: Option<CountingRecorder>,
     live_bound: u64,
     hist: History,
     ctl: Arc<StreamCtl>,
@@ -98,6 +100,12 @@ fn writer_parked(sh: &Shared) -> bool {
 }
 
 fn do_append(sh: &Shared, h: &Handle, thread: u64, seq: &mut u64) {
+    do_append_opt(sh, h, thread, seq, false)
+}
+
+/// `bare`: without the thread-local metrics recorder even if the run has one (an append made
+/// before any recorder is installed: its overflow, if any, is reported to nobody)
+fn do_append_opt(sh: &Shared, h: &Handle, thread: u64, seq: &mut u64, bare: bool) {
     let id = entry_id(thread, *seq);
     *seq += 1;
     let me = detsim::current_tid().unwrap();
@@ -106,7 +114,10 @@ fn do_append(sh: &Shared, h: &Handle, thread: u64, seq: &mut u64) {
     }
     let b0 = detsim::blocked_count(me);
     sh.hist.log(K::AppendBegin { id });
-    let r = std::panic::catch_unwind(std::panic::AssertUnwindSafe(|| h.append(id)));
+    let r = std::panic::catch_unwind(std::panic::AssertUnwindSafe(|| match &sh.tl_recorder {
+        Some(rec) if !bare => metrics::with_local_recorder(rec, || h.append(id)),
+        _ => h.append(id),
+    }));
     let blocked = detsim::blocked_count(me) != b0;
     sh.hist.log(K::AppendEnd { id, blocked, panicked: r.is_err() });
 }
@@ -197,6 +208,11 @@ fn run_ops(sh: &Arc<Shared>, h: &Handle, thread: u64, ops: &[Value]) {
                     do_append(sh, h, thread, &mut seq);
                 }
             }
+            "append_bare" => {
+                for _ in 0..ju(op, "n", 1) {
+                    do_append_opt(sh, h, thread, &mut seq, true);
+                }
+            }
             "flush" => do_flush(sh, h, op),
             "sleep" => detsim::sleep_ns(ju(op, "ns", 0)),
             "gate" => sh.ctl.gate.add(ji(op, "n", 1)),
@@ -248,7 +264,18 @@ fn run_ops(sh: &Arc<Shared>, h: &Handle, thread: u64, ops: &[Value]) {
 }
 
 fn count_appends(ops: &[Value]) -> u64 {
-    ops.iter().filter(|o| js(o, "op", "") == "append").map(|o| ju(o, "n", 1)).sum()
+    ops.iter().filter(|o| matches!(js(o, "op", ""), "append" | "append_bare")).map(|o| ju(o, "n", 1)).sum()
+}
+
+fn count_bare_appends(plan: &Value) -> u64 {
+    let mut n = 0;
+    for key in ["main_ops", "pre_end", "post"] {
+        n += ja(plan, key).iter().filter(|o| js(o, "op", "") == "append_bare").map(|o| ju(o, "n", 1)).sum::<u64>();
+    }
+    for p in ja(plan, "producers") {
+        n += p.as_array().map(|a| a.as_slice()).unwrap_or(&[]).iter().filter(|o| js(o, "op", "") == "append_bare").map(|o| ju(o, "n", 1)).sum::<u64>();
+    }
+    n
 }
 
 /// Forget path: simulated time of one settle cycle: one flush interval + generous per-entry
@@ -296,6 +323,8 @@ fn queue_main(plan: &Value, slot: Arc<Mutex<Option<QueueRun>>>) {
     stream.next_cost_ns = ju(plan, "next_cost_ns", 0);
     stream.report_res = Res::from_str(js(plan, "report_res", "O"));
     stream.flush_fail = ja(plan, "flush_fail").iter().filter_map(|x| x.as_u64()).collect();
+    stream.flush_fail_from = plan.get("flush_fail_from").and_then(|x| x.as_u64());
+    stream.install_subscriber_at = plan.get("writer_subscriber_at").and_then(|x| x.as_u64());
     for s in ja(plan, "script") {
         if let Some(a) = s.as_array() {
             if a.len() == 3 {
@@ -313,7 +342,31 @@ fn queue_main(plan: &Value, slot: Arc<Mutex<Option<QueueRun>>>) {
         .metric_name("q")
         .flush_interval(Duration::from_nanos(flush_interval))
         .shutdown_timeout(Duration::from_nanos(ju(plan, "shutdown_timeout_ns", 1_000_000_000_000_000).max(1)));
-    if jb(plan, "recorder", false) {
+    let global_tl = jb(plan, "recorder", false) && js(plan, "recorder_kind", "local") == "global_tl";
+    if global_tl {
+        // the "global recorder" bridge resolves the recorder at every call through the `metrics`
+        // macros: thread-local recorder first. Warm-up: another queue overflows once under a
+        // different recorder, so that anything cached across queues / recorders shows in this run
+        // (and not only in the second such run of a process).
+        let warm = CountingRecorder::default();
+        let (ws, _wctl) = RecStream::new(9, History::new(), 0);
+        let (wq, wj) = BackgroundQueueBuilder::new()
+            .capacity(1)
+            .thread_name("warmup")
+            .metric_name("warmup")
+            .flush_interval(Duration::from_secs(50))
+            .metrics_recorder_global::<dyn metrics::Recorder>()
+            .build::<IdEntry>(ws);
+        metrics::with_local_recorder(&warm, || {
+            for i in 0..3 {
+                wq.append(IdEntry(entry_id(999, i)));
+            }
+        });
+        _wctl.gate.open_forever();
+        drop(wj);
+        drop(wq);
+        b = b.metrics_recorder_global::<dyn metrics::Recorder>();
+    } else if jb(plan, "recorder", false) {
         b = b.metrics_recorder_local::<dyn metrics::Recorder, _>(recorder.clone());
     }
     let (handle, join): (Handle, BackgroundQueueJoinHandle) = if jb(plan, "boxed", false) {
@@ -324,6 +377,7 @@ fn queue_main(plan: &Value, slot: Arc<Mutex<Option<QueueRun>>>) {
         (Handle::Typed(q), j)
     };
     let sh = Arc::new(Shared {
+        tl_recorder: if global_tl { Some(recorder.clone()) } else { None },
         live_bound: liveness_bound(plan).unwrap_or(u64::MAX),
         hist: hist.clone(),
         ctl: ctl.clone(),
@@ -359,6 +413,16 @@ fn queue_main(plan: &Value, slot: Arc<Mutex<Option<QueueRun>>>) {
                 "drop" => {
                     hist.log(K::DropHandleBegin);
                     drop(j);
+                    let fin = writer_tid.map(detsim::thread_finished).unwrap_or(false);
+                    hist.log(K::DropHandleEnd { writer_finished: fin });
+                }
+                "drop_in_panic" => {
+                    // the join handle is a guard in a scope that unwinds
+                    hist.log(K::DropHandleBegin);
+                    let _ = std::panic::catch_unwind(std::panic::AssertUnwindSafe(move || {
+                        let _guard = j;
+                        std::panic::resume_unwind(Box::new("harness: unwinding through the scope that owns the join handle"));
+                    }));
                     let fin = writer_tid.map(detsim::thread_finished).unwrap_or(false);
                     hist.log(K::DropHandleEnd { writer_finished: fin });
                 }
@@ -669,6 +733,14 @@ pub fn check_c01(plan: &Value, run: &QueueRun, d: &Digest) -> Option<Violation> 
         }
     }
     // in-band error reports
+    if let Some(inst) = run.hist.iter().find(|e| matches!(&e.k, K::Note(n) if n == "writer_thread_subscriber_installed")).map(|e| e.seq) {
+        if let Some(rep) = d.reports.iter().find(|s| **s > inst) {
+            return Some(Violation::new(
+                "unexpected_report",
+                format!("in-band error report (event #{rep}) written although the writer thread has had a tracing subscriber since event #{inst}"),
+            ));
+        }
+    }
     let subscriber = subscriber_installed();
     if subscriber && !d.reports.is_empty() {
         return Some(Violation::new(
@@ -792,6 +864,10 @@ pub fn gen_c01(rng: &mut Rng, tier: Tier) -> Value {
         }
     }
     let next_cost = [0u64, 200, 5_000, 400_000, 40_000_000][rng.usize_below(5)];
+    // rarely used ending: forget() the join handle, the writer drains and exits once the last handle is gone
+    let forget = rng.chance(0.08);
+    // a tracing subscriber that appears (on the writer thread) after the queue was built
+    let writer_subscriber_at = if rng.chance(0.12) { Some(rng.below(total.max(1))) } else { None };
     let sched = gen_sched(
         rng,
         &SchedOpts {
@@ -817,9 +893,10 @@ pub fn gen_c01(rng: &mut Rng, tier: Tier) -> Value {
         "flush_fail": if rng.chance(0.2) { json!([rng.below(4), rng.below(8)]) } else { json!([]) },
         "producers": producers,
         "main_ops": main_ops,
-        "end": "drop",
+        "end": if forget { "forget" } else { "drop" },
         "end_before_join": false,
         "post": [],
+        "writer_subscriber_at": writer_subscriber_at,
     })
 }
 
@@ -1102,10 +1179,13 @@ pub fn check_c09(plan: &Value, run: &QueueRun, d: &Digest) -> Option<Violation> 
     }
     if jb(plan, "recorder", false) {
         let c = overflow_counter(run);
-        if c != lost {
+        // appends made before a recorder was installed report their displacement (at most one
+        // each) to nobody
+        let bare = if js(plan, "recorder_kind", "local") == "global_tl" { count_bare_appends(plan) } else { 0 };
+        if c > lost || c + bare < lost {
             return Some(Violation::new(
                 "overflow_counter_mismatch",
-                format!("metrique_queue_overflows = {c}, but {lost} of {appended} appended entries were discarded"),
+                format!("metrique_queue_overflows = {c}, but {lost} of {appended} appended entries were discarded ({bare} appends were made before a recorder was installed)"),
             ));
         }
     }
@@ -1149,6 +1229,13 @@ pub fn gen_c09(rng: &mut Rng, _tier: Tier) -> Value {
             }
         }
     }
+    let recorder_kind = if rng.chance(0.25) { "global_tl" } else { "local" };
+    if recorder_kind == "global_tl" && rng.chance(0.6) {
+        // the first overflow happens before any recorder is installed
+        if let Some(Value::Array(ops)) = producers.first_mut() {
+            ops.insert(0, json!({"op":"append_bare","n": cap + 1 + rng.below(2)}));
+        }
+    }
     let gate0 = if stalled_single { 0 } else { [0i64, 0, 1, 3, -1][rng.usize_below(5)] };
     let sched = gen_sched(
         rng,
@@ -1162,6 +1249,7 @@ pub fn gen_c09(rng: &mut Rng, _tier: Tier) -> Value {
         "flush_interval_ns": flush_interval,
         "shutdown_timeout_ns": 1_000_000_000_000_000u64,
         "recorder": rng.chance(0.85),
+        "recorder_kind": recorder_kind,
         "next_cost_ns": *rng.pick(&[0u64, 1_000, 300_000]),
         "gate": gate0,
         "script": if rng.chance(0.2) { Value::Array(gen_script(rng, &[6, 6, 6], 0.2)) } else { json!([]) },
@@ -1529,7 +1617,7 @@ pub fn check_c05(plan: &Value, run: &QueueRun, d: &Digest) -> Option<Violation> 
     let lossy = jb(plan, "lossy_shutdown", false);
     let late_space = 900u64;
     if let (Some(b), Some((x, writer_finished))) = (d.drop_begin, d.drop_end) {
-        let explicit_drop = js(plan, "end", "drop") == "drop";
+        let explicit_drop = matches!(js(plan, "end", "drop"), "drop" | "drop_in_panic");
         if explicit_drop {
             let mut last_next_end = 0u64;
             for (id, e) in &d.entries {
@@ -1673,10 +1761,11 @@ pub fn gen_c05(rng: &mut Rng, _tier: Tier) -> Value {
         "script": if rng.chance(0.25) { Value::Array(gen_script(rng, &[10, 10, 10], 0.2)) } else { json!([]) },
         "report_res": "O",
         "flush_fail": if rng.chance(0.15) { json!([rng.below(5)]) } else { json!([]) },
+        "flush_fail_from": if rng.chance(0.1) { json!(rng.below(4)) } else { Value::Null },
         "producers": producers,
         "main_ops": main_ops,
         "pre_end": [],
-        "end": if forget { "forget" } else { "drop" },
+        "end": if forget { "forget" } else if rng.chance(0.12) { "drop_in_panic" } else { "drop" },
         "end_before_join": end_before_join,
         "post": post,
         "settle_ns": settle,
